@@ -393,8 +393,10 @@ def run_real(case, ctx):
     if backend in ("loky", "multiprocessing"):
         # failures in TRANSPORT: the result or the exception of a task cannot be pickled, or the task cannot be sent - the
         # pools report them through another path than an exception raised by the task
+        tasks_calls = [c for c in hist if c["kind"] == "task"]
+        forced = tasks_calls[0] if tasks_calls and case["i"] % 2 == 0 else None      # every other history has one for sure
         for c in hist:
-            if c["kind"] == "task" and rng.random() < 0.35:
+            if c["kind"] == "task" and (c is forced or rng.random() < 0.35):
                 c.update(kind="transport", how=rng.choice(["unpicklable-result", "unpicklable-exception", "unpicklable-argument", "argument-pickling-raises-IndexError"]), fail_at=c["fail_at"][:1])
                 c.pop("exc", None)
     cfg["history"] = hist
@@ -403,8 +405,9 @@ def run_real(case, ctx):
         cf, of = os.path.join(d, "cfg.json"), os.path.join(d, "out.json")
         with open(cf, "w") as f:
             json.dump(cfg, f)
-        r = harness.run_py([os.path.join(harness.VERIF, "checks", "c04_real.py"), cf, of], timeout=300,
-                           result_file=of, dump_stacks_at=(200, 20))
+        # (a history takes a few seconds; the two stack dumps that make a hang witness are taken after 100 and 120 s)
+        r = harness.run_py([os.path.join(harness.VERIF, "checks", "c04_real.py"), cf, of], timeout=160,
+                           result_file=of, dump_stacks_at=(100, 20))
         if r["result"] is None:
             from checks.c01 import same_stacks
             if r["timed_out"] and r["stacks"] and len(r["stacks"]) == 2 and same_stacks(r["stacks"]):
